@@ -206,7 +206,8 @@ def _from_model(cls, m):
     return d
 
 
-CASES = {"call": check_call, "class": check_class}
+from mc.core import safe  # noqa: E402
+CASES = {k: safe("C05", f) for k, f in {"call": check_call, "class": check_class}.items()}
 
 
 def _worker(shard):
@@ -219,7 +220,7 @@ def _worker(shard):
             for j in range(-1, n + 1):
                 for left in (False, True):
                     params = dict(recipe=recipe, i=i, j=j, left=left, seed=seed)
-                    res = check_call(params)
+                    res = CASES["call"](params)
                     part.count("transitions")
                     if 0 <= i < n and 0 <= j < n and i != j:
                         part.count("traces_validated_against_impl", abs(i - j))
@@ -230,7 +231,7 @@ def _worker(shard):
         # class exploration (sequences of interchanges)
         if n >= 2:
             params = dict(recipe=recipe)
-            res = check_class(params)
+            res = CASES["class"](params)
             st = params.pop("_stats", (0, 0))
             part.count("class_states", st[0])
             part.count("class_edges_replayed", st[1])
